@@ -299,3 +299,115 @@ pub fn ticker_race_case(seed: u64, idx: u64) -> CaseOut {
     co.see("ticker_park_points", park_at);
     co
 }
+
+// ------------------------------------------------------------------------------------------------------
+// C04 under MultiProgress::set_move_cursor(true)
+// ------------------------------------------------------------------------------------------------------
+// In this mode frames are overwritten in place instead of being cleared first. Rows of a frame that
+// *shrinks* to a shorter non-empty frame are a known limitation of the mode (not checked here); but a frame
+// that becomes EMPTY is cleared by the code on purpose, so the statement of C04 can be checked where the mode
+// supports it: one bar (1-3 template lines, fixed-width fields, widths around the terminal width, so never a
+// shrinking frame or a shorter row in between), then one finishing call. Clearing variants must leave no bar row at all,
+// visible variants exactly the final frame below the log lines.
+
+pub fn move_cursor_finish_case(seed: u64, idx: u64) -> CaseOut {
+    let mut rng = Rng::derive(seed, 404, idx);
+    let replay = format!("v{seed}:{idx}");
+    let width = rng.range(6, 30) as u16;
+    let n_lines = rng.range(1, 3) as usize;
+    // fixed-width fields: the number of rows of the frame does not change while the bar runs
+    let tmpl: String = (0..n_lines).map(|i| format!("B{i}{{pos:>4}}/{{len:<4}}{}", "x".repeat(rng.range(0, width as u64 + 3) as usize))).collect::<Vec<_>>().join("\n");
+    let fin = rng.below(8);
+    let fin_name = ["finish_and_clear", "drop(AndClear)", "finish_using_style(AndClear)", "iterator(AndClear)", "finish", "abandon", "drop(AndLeave)", "finish_with_message"][fin as usize];
+    let clearing = fin < 4;
+    // (no log lines: in this mode a text line overwrites a bar row without erasing the rest of it - the mode
+    // trades such artefacts for less flicker; nothing is claimed about them)
+    let n_logs = 0u64;
+    let n_updates = rng.range(0, 12);
+    let w = J::obj().with("terminal_width", width).with("template", tmpl.clone()).with("finishing", fin_name).with("log_lines", n_logs).with("updates", n_updates);
+    let feats = vec!["move-cursor".to_string(), fin_name.to_string(), if clearing { "clearing".into() } else { "visible".to_string() }];
+    let mut co = CaseOut::held(fnv1a(format!("{width}{tmpl}{fin}{n_logs}{n_updates}").as_bytes()), true);
+    let spy = SpyTerm::new(width, 40, false);
+    spy.state().snap_on_flush = false;
+    let res = catch_unwind(AssertUnwindSafe(|| -> Verdict {
+        let mp = MultiProgress::with_draw_target(ProgressDrawTarget::term_like(spy.boxed()));
+        mp.set_move_cursor(true);
+        let on_finish = match fin {
+            1 | 2 | 3 => indicatif::ProgressFinish::AndClear,
+            6 => indicatif::ProgressFinish::AndLeave,
+            _ => indicatif::ProgressFinish::AndClear,
+        };
+        let pb = mp.add(ProgressBar::with_draw_target(Some(10), ProgressDrawTarget::hidden()).with_style(ProgressStyle::with_template(&tmpl).unwrap()).with_finish(on_finish));
+        pb.tick();
+        let mut logs = Vec::new();
+        for i in 0..n_updates {
+            pb.inc(1);
+            if (i as u64) < n_logs {
+                let l = format!("log {i}");
+                let _ = mp.println(&l);
+                logs.push(l);
+            }
+        }
+        for i in logs.len() as u64..n_logs {
+            let l = format!("log {i}");
+            let _ = mp.println(&l);
+            logs.push(l);
+        }
+        match fin {
+            0 => pb.finish_and_clear(),
+            1 | 6 => drop(pb.clone()),
+            2 => pb.finish_using_style(),
+            3 => {
+                pb.reset();
+                for _ in indicatif::ProgressIterator::progress_with(0..3, pb.clone()) {}
+            }
+            4 => pb.finish(),
+            5 => pb.abandon(),
+            _ => pb.finish_with_message("m"),
+        }
+        if matches!(fin, 1 | 6) {
+            drop(pb);
+        } else {
+            // keep the handle alive until the screen has been read
+            std::mem::forget(pb);
+        }
+        let rows = rows_of(&spy);
+        let bar_rows: Vec<&String> = rows.iter().filter(|r| r.starts_with('B') || r.starts_with('x') || r.contains('/')).collect();
+        let log_rows: Vec<&String> = rows.iter().filter(|r| r.starts_with("log ")).collect();
+        if log_rows.len() != logs.len() || log_rows.iter().zip(&logs).any(|(a, b)| *a != b) {
+            return viol("log-missing", feats.clone(), format!("after {fin_name} under set_move_cursor(true): log lines on the screen {log_rows:?}, printed {logs:?}; screen {rows:?}"), w.clone(), replay.clone());
+        }
+        if clearing && !bar_rows.is_empty() {
+            return viol(
+                "cleared-bar-visible",
+                feats.clone(),
+                format!("{fin_name} under set_move_cursor(true): the bar was the only member, its frame becomes empty, yet bar rows are still on the screen: {rows:?}"),
+                w.clone(),
+                replay.clone(),
+            );
+        }
+        if !clearing {
+            // the final frame: every template line once, in order, below the log lines
+            let firsts: Vec<usize> = (0..n_lines).filter_map(|i| rows.iter().position(|r| r.starts_with(&format!("B{i}")))).collect();
+            let counts: Vec<usize> = (0..n_lines).map(|i| rows.iter().filter(|r| r.starts_with(&format!("B{i}"))).count()).collect();
+            let last_log = rows.iter().rposition(|r| r.starts_with("log "));
+            if counts.iter().any(|c| *c != 1) || firsts.windows(2).any(|p| p[0] >= p[1]) || last_log.map_or(false, |l| firsts.first().map_or(true, |f| *f < l)) {
+                return viol(
+                    "final-frame-missing",
+                    feats.clone(),
+                    format!("{fin_name} under set_move_cursor(true): the final frame must be on the screen exactly once below the log lines; screen {rows:?}"),
+                    w.clone(),
+                    replay.clone(),
+                );
+            }
+        }
+        Verdict::Held
+    }));
+    match res {
+        Ok(v) => co.verdict = v,
+        Err(p) => co.verdict = viol("panic", feats, format!("panicked: {}", crate::world::panic_message(&p)), w, replay),
+    }
+    co.count("move_cursor_finishes_checked", 1);
+    co.see("move_cursor_finish_kinds", fin);
+    co
+}
